@@ -248,7 +248,9 @@ def arc_uniform_scale_passes_the_scaled_endpoint_parameters(c, form):
     c.ensures('one-Arc-is-built', len(calls) == 1 and c.isinstance(r, 'path.Arc'))
     g = calls[0]
     c.ensures('end-points-scaled-about-the-origin', ops.And(ops.eq(g['start'], s * (p['start'] - o) + o), ops.eq(g['end'], s * (p['end'] - o) + o)))
-    c.ensures('radii-scaled', ops.eq(g['radius'], ops.cx(s * p['rx'], s * p['ry'])))
+    # the constructor drops the sign of the radii (C04), so s*r and |s|*r are the same request
+    gr = g['radius']
+    c.ensures('radii-scaled-by-|s|-(sign-immaterial)', ops.And(ops.eq(ops.re(gr) * ops.re(gr), s * s * p['rx'] * p['rx']), ops.eq(ops.im(gr) * ops.im(gr), s * s * p['ry'] * p['ry'])))
     c.ensures('rotation-and-flags-unchanged', ops.And(ops.eq(g['rotation'], p['rot']), g['large_arc'] is c.get(arc, 'large_arc'), g['sweep'] is c.get(arc, 'sweep')))
 
 
